@@ -7,7 +7,8 @@ package c09
 //   impl line : <status> gas=<gas used by the root frame (traced run at the same limit)> markers=<surviving SSTORE markers
 //               read from contract storage> kept=<precompile calls whose frame and all enclosing frames returned
 //               normally> frames=<CALL-family frames of generated contracts that returned normally together with all
-//               their enclosing frames (journal level: what the StateDB kept of each frame)> logs=<number of precompile logs in the receipt> ref=<same|diff>
+//               their enclosing frames (journal level: what the StateDB kept of each frame)> logs=<number of precompile logs in the receipt>:<their
+//               origin in receipt order, s = staking precompile, c = crosschain precompile (round 4)> ref=<same|diff>
 //               where ref compares every Cosmos module store (and the ERC-20 token storage) after the real run with a
 //               REFERENCE run (ample gas) of the program pruned to exactly the kept frames — "surviving effects = those
 //               of calls all of whose enclosing frames returned normally", checked byte for byte on bank, staking,
@@ -299,6 +300,7 @@ type runObs struct {
 	dump    map[string]string
 	logs    string
 	nPreLog int
+	preSeq  string // origin of every precompile log of the receipt, in order: s = staking, c = crosschain
 	tr      *evmx.Tracer
 	gasUsed uint64
 }
@@ -483,6 +485,12 @@ func (e *env) runWith(pctx sdk.Context, p *program, gasLimit uint64, traced bool
 			sb.WriteString(l.Address + ":" + strings.Join(l.Topics, ",") + ":" + common.Bytes2Hex(l.Data) + ";")
 			if a := common.HexToAddress(l.Address); a == e.staking || a == e.cross {
 				o.nPreLog++
+				// round 4: which precompile emitted the surviving log, in receipt order
+				if a == e.staking {
+					o.preSeq += "s"
+				} else {
+					o.preSeq += "c"
+				}
 			}
 		}
 		o.logs = sb.String()
@@ -660,6 +668,10 @@ func (e *env) progText(p *program, tr *evmx.Tracer) (string, uint64) {
 				if hasVal {
 					xfer = 1
 					stip = 2300
+					if n.Kind == evmx.KCallCode {
+						xfer = 2 // EVM.CallCode: CanTransfer is consulted for the executing account, nothing moves (no journal entry)
+						e.cnt("value-callcode:" + n.Op)
+					}
 				}
 				// analytic cost of everything before gas is forwarded
 				an := uint64(0)
@@ -703,7 +715,12 @@ func (e *env) progText(p *program, tr *evmx.Tracer) (string, uint64) {
 					if len(n.OpPcs) > 0 {
 						words = (uint64(len(assembleX(n.Body, p.create))) + 31) / 32
 					}
-					an = 3*3 + 3 + 3*words + memCost(words) + 3*2 + 3 + 32000 + 2*words // EIP-3860: 2 gas per word of init code
+					mem := uint64(0)
+					if words > memWords {
+						mem = memCost(words) - memCost(memWords) // round 4: the frame's memory may already be expanded (earlier calldata / init code)
+						memWords = words
+					}
+					an = 3*3 + 3 + 3*words + mem + 3*2 + 3 + 32000 + 2*words // EIP-3860: 2 gas per word of init code
 					if hasFrame && ok && !bad[key{frame, uint64(n.PcCall)}] {
 						callc += cost[key{frame, uint64(n.PcCall)}]
 						if callc != an {
@@ -978,7 +995,7 @@ func TestC09(t *testing.T) {
 			if len(trc.tr.Frames) > 0 {
 				rootUsed = trc.tr.Frames[0].GasUsed
 			}
-			obs = fmt.Sprintf("%s gas=%d markers=%s kept=%s frames=%s logs=%d ref=%s", real.status, rootUsed, ints(real.markers), ints(trc.kept), ints(trc.frames), real.nPreLog, strings.SplitN(refs, ":", 2)[0])
+			obs = fmt.Sprintf("%s gas=%d markers=%s kept=%s frames=%s logs=%d:%s ref=%s", real.status, rootUsed, ints(real.markers), ints(trc.kept), ints(trc.frames), real.nPreLog, real.preSeq, strings.SplitN(refs, ":", 2)[0])
 			out.Count(fmt.Sprintf("kept-call-frames:%d", len(trc.frames)))
 			out.Emit(fmt.Sprintf("%s %d %d %s", opw, g, intrinsic, text), obs)
 			if p.direct {
